@@ -26,7 +26,8 @@ Inductive event :=
 | EBarLine (id : string) (x1 y1 x2 y2 : Z)
 | ENodeCircle (id : string) (x y : Z)
 | ESupport (kind : nat) (x y : Z)   (* 1 fixed, 2 pinned, 3 roller (dy); drawn inside its own group *)
-| ELoadGroup (x y : Q)              (* the group of a loaded bar, translated to its scaled start point *)
+| ELoadGroup (x y : Q) (c s : Q)    (* the group of a loaded bar, translated to its scaled start point and turned so that its x axis
+                                      runs along the bar: (c, s) the cosine and sine of the turn *)
 | EPolygon (x0 x1 : Z) (y0 y1 : Z)  (* vertices (x0,0) (x0,y0) (x1,y1) (x1,0) in the bar's local frame *)
 | EEnd.
 
@@ -66,7 +67,7 @@ Definition load_polygon (u : Q) (dscale : Q) (b : pbar_in) (l : pdload) : list e
   else [].
 Definition bar_loads (u dscale : Q) (b : pbar_in) : list event :=
   if pb_has_loads b then
-    [ELoadGroup (pb_x1 b * u) (pb_y1 b * u); EOpen "dloads"] ++ flat_map (load_polygon u dscale b) (pb_dloads b) ++ [EClose "dloads"; EClose "bar-loads"]
+    [ELoadGroup (pb_x1 b * u) (pb_y1 b * u) ((pb_x2 b - pb_x1 b) / pb_len b) ((pb_y2 b - pb_y1 b) / pb_len b); EOpen "dloads"] ++ flat_map (load_polygon u dscale b) (pb_dloads b) ++ [EClose "dloads"; EClose "bar-loads"]
   else [].
 
 (* ---- supports of a known kind ---- *)
@@ -102,7 +103,7 @@ Fixpoint depth_after (d : nat) (evs : list event) : option nat :=
   match evs with
   | [] => Some d
   | EOpen _ :: r => depth_after (S d) r
-  | ELoadGroup _ _ :: r => depth_after (S d) r
+  | ELoadGroup _ _ _ _ :: r => depth_after (S d) r
   | EClose _ :: r => match d with 0%nat => None | S d' => depth_after d' r end
   | _ :: r => depth_after d r
   end.
